@@ -15,7 +15,12 @@ type Scenario struct {
 	P, E int
 	Run  func(sp Spawn, yield func(), obs *[]string)
 	Want func(obs []string) bool
+	// MinOutcomes: at least this many distinct observation lists must occur over all executions (0: no demand)
+	MinOutcomes int
 }
+
+// Drop is set by the driver to the scheduler's "this object has become unreachable".
+var Drop func(obj interface{}) bool
 
 // Scenarios lists the systems the test driver explores.
 var Scenarios = []Scenario{
@@ -108,4 +113,16 @@ var Scenarios = []Scenario{
 		sp("s", func() { ch <- 1; ch <- 2; close(done) })
 		sp("l", func() { *obs = append(*obs, fmt.Sprint(Labeled(ch, done))) })
 	}, Want: func(obs []string) bool { return len(obs) == 1 && obs[0] == "3" }},
+	// a finalizer runs, as a thread of its own, any time after the harness dropped the object: the reader sees the
+	// resource open in some executions and closed in others; without Drop it never runs
+	{Name: "finalizer", P: 2, E: 1, MinOutcomes: 2, Run: func(sp Spawn, yield func(), obs *[]string) {
+		r := NewRes()
+		keep := NewRes()
+		sp("user", func() {
+			started := Drop(r)
+			*obs = append(*obs, fmt.Sprint(started, r.Closed(), keep.Closed()))
+		})
+	}, Want: func(obs []string) bool {
+		return len(obs) == 1 && (obs[0] == "true false false" || obs[0] == "true true false")
+	}},
 }
